@@ -24,12 +24,14 @@ func C09(tier string) int {
 	}
 	// data races: happens-before race obligations over the goroutine model (symgo/race.go)
 	type rp struct{ shape, words, T int }
-	rfam := []rp{{0, 2, 2}, {1, 2, 3}, {2, 2, 2}, {3, 2, 3}, {4, 0, 0}}
+	rfam := []rp{{0, 2, 2}, {1, 2, 4}, {2, 2, 2}, {3, 2, 4}, {4, 0, 0}, {5, 0, 0}, {6, 0, 0}}
 	if tier == "thorough" {
-		rfam = []rp{{0, 2, 3}, {0, 3, 4}, {1, 2, 4}, {1, 3, 6}, {2, 2, 3}, {2, 3, 4}, {3, 2, 4}, {3, 3, 6}, {4, 0, 0}}
+		rfam = []rp{{0, 2, 3}, {0, 3, 4}, {1, 2, 4}, {1, 3, 6}, {2, 2, 3}, {2, 3, 4}, {3, 2, 4}, {3, 3, 6}, {4, 0, 0}, {5, 0, 0}, {6, 0, 0}}
 	}
 	shapes := []string{"one VM, two unbonded processors", "one VM, producer bonded to two consumers", "two simulations, each stepped by its own goroutine",
-		"one VM, producer bonded to two consumers, per-opcode delays", "witness: an unsynchronised shared write in the harness must be reported"}
+		"one VM, producer bonded to two consumers, per-opcode delays", "witness: an unsynchronised shared write in the harness must be reported",
+		"witness: a worker loop that answers before it updates its state on one arm of a branch, state read right after the answer: must be reported",
+		"witness: the same worker loop, state read after the next exchange: must not be reported"}
 	for _, f := range rfam {
 		order := []int{2, 3, 4}
 		if f.shape == 2 {
@@ -67,8 +69,9 @@ func C09(tier string) int {
 	sp.Opts.Post = func(o *Outcome, in *symgo.Interp) {
 		if in.RaceDetect {
 			c, p := in.RaceObligations()
-			if o.Config.Args[0].I == 4 {
-				// the witness: its race obligation must come back violated; it is turned into a reachability marker
+			if sh := o.Config.Args[0].I; sh >= 4 {
+				// witnesses: the race obligation of shapes 4 and 5 must come back violated, shape 6 must have none
+				// that is violated; the outcome is turned into a reachability marker (or a machinery problem)
 				found := false
 				kept := in.Verdicts[:0]
 				for _, v := range in.Verdicts {
@@ -79,10 +82,12 @@ func C09(tier string) int {
 					kept = append(kept, v)
 				}
 				in.Verdicts = kept
-				if found {
-					in.Verdicts = append(in.Verdicts, symgo.Verdict{Obl: &symgo.Obligation{Kind: "reach", Tag: "race-witness-reported"}, Result: "reachable"})
+				if found == (sh != 6) {
+					in.Verdicts = append(in.Verdicts, symgo.Verdict{Obl: &symgo.Obligation{Kind: "reach", Tag: "race-witness-as-expected"}, Result: "reachable"})
+				} else if sh == 6 {
+					o.Err = "a race was reported on the ordered witness (worker loop, state read after the next exchange)"
 				} else {
-					o.Err = "the race witness (unsynchronised shared write in the harness) was not reported"
+					o.Err = "the race witness was not reported"
 				}
 				return
 			}
